@@ -303,6 +303,7 @@ typedef struct {
     int      ro;
     uint8_t  can_seed;
     int      toggle;
+    size_t   slide;
     const char *role;
 } gbuf_t;
 
@@ -320,7 +321,7 @@ static inline void gb_init(gbuf_t *g, const char *role, size_t maxlen)
     if (g_addr_class) { if (g->map != (uint8_t *)MAP_FAILED) ++g_addr_ok; else ++g_addr_fallback; }
     if (g->map == (uint8_t *)MAP_FAILED) g->map = (uint8_t *)mmap(NULL, (pages + 2) * PAGE, PROT_NONE, MAP_PRIVATE | MAP_ANONYMOUS, -1, 0);
     if (g->map == MAP_FAILED) { perror("mmap"); exit(2); }
-    g->toggle = 0;
+    g->toggle = 0; g->slide = 0;
     g->data_pages = pages;
     g->data = g->map + PAGE;
     if (mprotect(g->data, pages * PAGE, PROT_READ | PROT_WRITE)) { perror("mprotect"); exit(2); }
@@ -364,7 +365,15 @@ static inline uint8_t *gb_place(gbuf_t *g, size_t len, int place, unsigned off, 
         uint8_t *p = g->data + CANARY + 8 + (off & 7), *b = g->data + PAGE, *q;
         /* every other time: laid across the boundary between the first two data pages, same alignment class */
         g->toggle = (g->toggle + 1) % 3;
-        q = b - 8 * ((len / 2) / 8 + 1) + (off & 7);
+        /* state 1: the boundary falls inside the buffer, s bytes after its start, with s running over successive
+         * placements through every value in 1..len-1 that keeps the requested alignment class (callers rotate `off`
+         * over 0..7, so every byte position of a buffer meets the boundary; state objects keep their alignment) */
+        {
+            size_t s0 = (8 - (off & 7)) & 7, nslots;
+            if (s0 == 0) s0 = 8;
+            nslots = len >= 1 + s0 ? (len - 1 - s0) / 8 + 1 : 0;
+            q = nslots ? b - (s0 + 8 * (g->slide++ % nslots)) : b;
+        }
         if (g->toggle == 2 && len + CANARY <= PAGE && (((uintptr_t)(b - len)) & 7) == (off & 7)) q = b - len;      /* last byte just below the boundary */
         if (g->toggle && g->data_pages >= 2 && len >= 2 && q >= g->data + CANARY && q < b && q + len >= b && q + len + CANARY <= end) p = q;
         g->can_seed = junk;
